@@ -44,4 +44,21 @@ theorem gasToLimit_eq (l : List Nat) (m : Meter) (h0 : m.consumed ≤ m.limit) :
   · rw [chargeAll_in_budget l m (by omega)]
     simp only [gasToLimit]
 
+theorem foldl_chargeStep_error (l : List (List Nat × Nat)) (m : Meter) :
+    l.foldl chargeStep (.error m) = .error m := by
+  induction l with
+  | nil => rfl
+  | cons e es ih => simpa [List.foldl, chargeStep] using ih
+
+/-- The fold form used by `chargeSorted` is the loop `chargeAll` on the charges. -/
+theorem foldl_chargeStep (l : List (List Nat × Nat)) (m : Meter) :
+    l.foldl chargeStep (.ok m) = chargeAll m (l.map (·.2)) := by
+  induction l generalizing m with
+  | nil => rfl
+  | cons e es ih =>
+    simp only [List.foldl, List.map_cons, chargeAll, chargeStep]
+    cases h : m.consume e.2 with
+    | ok m' => simp only [ih]
+    | error m' => simp only [foldl_chargeStep_error]
+
 end GnoVerif.C01
